@@ -17,7 +17,7 @@ MODNAME = {"sim__new.rs": "verif_kani_new", "sim__device__timer__seed.rs": "veri
 
 
 def K(id, module, harness, props, functions, kind="complete", bound=None, tier="quick", args=None, timeout=900,
-      stubs=None, assumptions=None, replay=None, group="", unwindset=None, exploratory=False, canary=False):
+      stubs=None, assumptions=None, replay=None, group="", unwindset=None, exploratory=False, canary=False, native_search=None):
     o = {"id": id, "engine": "kani", "module": module, "harness": f"{MODPATH[module]}::{MODNAME.get(module, 'verif_kani')}::{harness}",
          "properties": props, "functions": functions, "kind": kind, "bound": bound, "tier": tier,
          "cbmc_args": list(args or []), "timeout_s": timeout, "stubs": stubs or [], "assumptions": assumptions or [],
@@ -25,6 +25,7 @@ def K(id, module, harness, props, functions, kind="complete", bound=None, tier="
     if unwindset: o["unwindset"] = unwindset
     if exploratory: o["exploratory"] = True
     if canary: o["canary"] = True
+    if native_search: o["native_search"] = native_search
     OBL.append(o)
 
 
@@ -146,7 +147,7 @@ K("K.sim.reset_register_map", "sim.rs", "reset_keeps_register_map", ["C30"], ["S
 NEWSTUBS = ["MemArray::new=arbitrary memory (its 65536-iteration filler loop cannot be unwound)", "<[Word]>::fill=contract of slice::fill restricted to the one word the harness observes afterwards (symbolic address chosen beforehand, located through the slice position inside the memory array); executed, the 512 updates ran out of memory (> 20 GB)",
             "Simulator::load_os=counted; arbitrary writes below xFE00, os_loaded set (the OS image is an assembled object: no assembled block reaches the I/O page, C02)", "FrameStack::new=records its argument, arbitrary stack (own obligation K.new.frame_stack_new)",
             "<() as WordFiller>::generate, <StdRng as WordFiller>::generate=arbitrary word; <StdRng as SeedableRng>::from_seed=some generator (rand's ChaCha code crashes the Kani compiler when reachable)", RS]
-K("K.new.constructor", "sim__new.rs", "new_with_mcr_contract", ["C29", "C30"], ["Simulator::new_with_mcr", "MachineInitStrategy::generator", "RegFile::new", "InternalRegister::default_mmap"], args=UF, stubs=NEWSTUBS, unwindset={"hashbrown": 9}, timeout=1500,
+K("K.new.constructor", "sim__new.rs", "new_with_mcr_contract", ["C29", "C30"], ["Simulator::new_with_mcr", "MachineInitStrategy::generator", "RegFile::new", "InternalRegister::default_mmap"], args=UF, stubs=NEWSTUBS, unwindset={"hashbrown": 9}, timeout=1500, native_search="constructor",
   assumptions=["load_os places the OS image (parse_ast o assemble of os.asm, then load_obj_file): not verified"])
 K("K.new.deterministic", "sim__new.rs", "new_with_mcr_deterministic", ["C30"], ["Simulator::new_with_mcr"], args=UF, stubs=NEWSTUBS, group="newdet", timeout=1500, kind="bounded", bound="strategy Known { value } (the deterministic one without rand); memory contents not compared (MemArray::new stubbed)")
 K("K.sim.step_in_contract", "sim.rs", "step_in_contract", ["C13", "C28", "C08"], ["Simulator::step_in"], args=UF,
